@@ -166,12 +166,19 @@ def run(tier):
             ok_raised = True
         add({'e': 'shape_ok', 'g': d, 'raised': ok_raised}, {'doc': d, 'kind': kind})
     rejects, stats = validate('traces/BatchTrace.tla', events, 'c11', per_shard=200, group='g')
+    from ..trace import binding_demo
+
+    def swap_results(e):
+        if e['e'] == 'run' and not e['raised'] and len(set(e['results'])) > 1:
+            e['results'] = e['results'][1:] + e['results'][:1]
+            return e
+    demo = binding_demo('traces/BatchTrace.tla', events, [('results_rotated', swap_results)], 'c11', group='g', limit=3)
     viols = []
     for (i, clause) in rejects:
         m = metas[i]
         viols.append(Violation(PROP, clause, json.dumps({k: m[k] for k in m if k in ('kind', 'order', 'processes', 'max_chunk_size', 'mismatch', 'sentence')}), m))
     cov.update({
-        'states': r.distinct + stats.states, 'transitions': r.generated + stats.transitions, 'traces_validated_against_impl': len(events),
+        'states': r.distinct + stats.states, 'transitions': r.generated + stats.transitions, 'binding_demonstration': demo, 'traces_validated_against_impl': len(events),
         'events': {'documents': ndocs, 'batch_runs': n_runs, 'of_which_through_the_process_pool': n_mp,
                    'solo_runs': sum(1 for e in events if e['e'] == 'solo'), 'shape_mismatch_cases': sum(1 for e in events if e['e'] == 'shape'),
                    'placeholders_in_solo_runs': sum(1 for e in events if e['e'] == 'solo' and e['digest'] == 'FAILED')},
